@@ -121,7 +121,11 @@ ExpFV(sig, it) == CASE sig = "trace"  -> ExpSpan(it.fv)
 Expected(sig, it) == [id |-> it.id, fv |-> ExpFV(sig, it)]
 
 (* data points of a metric are a collection (each carries its own attribute set) *)
-SameField(f, g, w) == IF f = "dps" THEN Len(g) = Len(w) /\ Range(g) = Range(w) ELSE g = w
+(* a severity outside 0..24 ("sevout") is not a SeverityNumber of the data model: it may arrive as     *)
+(* UNSPECIFIED or as the number itself                                                                *)
+SameField(f, g, w) == CASE f = "dps" -> Len(g) = Len(w) /\ Range(g) = Range(w)
+                        [] f = "sev" /\ w = "sevout" -> g \in {"sev0", "sevout"}
+                        [] OTHER -> g = w
 
 -----------------------------------------------------------------------------
 (* Group(batch): the request the data model prescribes, constructively: walk    *)
@@ -190,14 +194,15 @@ V_Order(sig, batch, out) ==
                  /\ q[1] = p[1] /\ q[2] = p[2] /\ q[3] < p[3]
                  /\ At(out, q).id > At(out, p).id}}
 (* every field carried *)
-V_Field(sig, batch, out) ==
-  UNION {UNION {LET w == ExpFV(sig, batch[i])
+V_FieldX(sig, batch, out, Mask(_)) ==
+  UNION {UNION {LET w == Mask(ExpFV(sig, batch[i]))
                     g == At(out, p).fv
                 IN {[kind |-> "field", id |-> batch[i].id, field |-> f,
                      want |-> w[f], got |-> IF f \in DOMAIN g THEN g[f] ELSE NA]
                       : f \in {f \in DOMAIN w : f \notin DOMAIN g \/ ~SameField(f, g[f], w[f])}}
                 : p \in PlacesOf(out, batch[i].id)}
          : i \in 1..Len(batch)}
+V_Field(sig, batch, out) == V_FieldX(sig, batch, out, LAMBDA x : x)
 (* one group per distinct key (where the exporter does the grouping) *)
 V_DupGroup(sig, batch, out) ==
   IF sig \notin GroupingSignals THEN {} ELSE
@@ -212,6 +217,28 @@ Violations(sig, batch, out) ==
   V_Missing(sig, batch, out) \cup V_Dup(sig, batch, out) \cup V_Extra(sig, batch, out)
   \cup V_Misplaced(sig, batch, out) \cup V_Order(sig, batch, out) \cup V_Field(sig, batch, out)
   \cup V_DupGroup(sig, batch, out)
+
+(* ---- a third "protocol": the stdout exporters print the SDK objects as JSON.  What that JSON does   *)
+(* not carry is masked: the resource schema URL (all signals), int64 vs float64 of metric numbers.    *)
+(* The list is flat (one group per item), so only the per-item clauses apply.                          *)
+StdoutKeysNotCarried == {"rk.u"}
+StdoutMask(sig, fv) ==
+  IF sig # "metric" THEN fv
+  ELSE [fv EXCEPT !.dps = MapSeq(LAMBDA dp : [dp EXCEPT !.num = NA,
+                                                        !.ex = MapSeq(LAMBDA x : [x EXCEPT !.num = NA], @)], @),
+                  \* the JSON does not tag the aggregation; without data points its shape is ambiguous
+                  !.agg = CASE fv.dps = <<>> /\ HistLike(@) -> "histlike"
+                            [] fv.dps = <<>> /\ @ \in {"gauge", "summary"} -> "gauge-or-summary"
+                            [] OTHER -> @]
+ItemViolations(sig, batch, out, Mask(_), keysNotCarried) ==
+  V_Missing(sig, batch, out) \cup V_Dup(sig, batch, out) \cup V_Extra(sig, batch, out)
+  \cup {v \in V_Misplaced(sig, batch, out) : v.field \notin keysNotCarried}
+  \cup V_FieldX(sig, batch, out, Mask)
+WireProtos == {"grpc", "http", "grpc-gzip", "http-gzip", "zipkin"}
+Judge(sig, proto, batch, out) ==
+  IF proto = "stdout"
+  THEN ItemViolations(sig, batch, out, LAMBDA fv : StdoutMask(sig, fv), StdoutKeysNotCarried)
+  ELSE Violations(sig, batch, out)
 
 (* two decoded requests carry the same message (group order across resources free) *)
 Triples(out) ==
